@@ -148,7 +148,7 @@ def check_case(case: dict) -> Outcome:
                 out.fail(f"C20:nondeterministic:{sec}:{what}", f"section {sec} differs between env {base_env} and {env}: {json.dumps(diff)[:700]}")
                 break
     # internal identifiers must not leak into queries, finalised output or error records
-    for sec in ("conversions", "conversions_verification_backend"):
+    for sec in ("conversions", "conversions_verification_backend", "conversions_backend_without_regex_escaping"):
         for conv in base["sections"].get(sec, []):
             for q in conv["queries"]:
                 if isinstance(q, str) and leak.search(q):
